@@ -32,6 +32,7 @@ from . import ROOT, REPO
 
 EXIT_HELD, EXIT_VIOLATION, EXIT_BROKEN, EXIT_INCONCLUSIVE = 0, 1, 2, 3
 MAX_WITNESSES = 40
+MAX_PER_KIND = 4
 MAX_SAMPLES = 12
 DEBUG_RATIO = float(os.environ.get("VRF_DEBUG_RATIO", "inf"))   # print near misses above this err/tol
 
@@ -114,6 +115,7 @@ class Check:
         self.samples = []
         self.violations = []       # dicts: monitor, regime, entry, mech, witness
         self.n_violations = 0
+        self.kind_counts = {}
         self.notes = {}
         self.inconclusive = []
         self.t0 = time.time()
@@ -185,8 +187,12 @@ class Check:
 
     # ------------------------------------------------------------------ verdicts
     def violation(self, monitor, regime, entry, mech, witness):
+        """Witnesses are capped per (entry, mech) so that a flood of one mechanism (e.g. a known finding) can never
+        push a different mechanism out of the list that is classified against known_findings.json."""
         self.n_violations += 1
-        if len(self.violations) < MAX_WITNESSES:
+        k = (entry, mech)
+        self.kind_counts[k] = self.kind_counts.get(k, 0) + 1
+        if self.kind_counts[k] <= MAX_PER_KIND and len(self.violations) < MAX_WITNESSES * 10:
             self.violations.append({"monitor": monitor, "regime": str(regime), "entry": entry,
                                     "mech": mech, "witness": plain(witness)})
 
